@@ -3,6 +3,7 @@ import csv
 import io
 import json
 import os
+import random
 import shutil
 
 import numpy as np
@@ -193,6 +194,7 @@ def run(ctx):
     recs = []
     try:
         variants = ['fancy', 'plain', 'fancy'] if ctx.tier == 'quick' else ['fancy', 'plain', 'fancy'] * 4
+        multi_found = []
         for wi, names in enumerate(variants):
             w = W.default_world(ctx.seed + wi, names=names, hidden_root=(wi % 3 == 2))
             d = os.path.join(tmp, f'db{wi}')
@@ -216,6 +218,25 @@ def run(ctx):
                     res = query(db, sigs, QueryParams(classify_strict=strict, report_closest=nclose, chunksize=[1000, 2, None][nclose % 3]), inputs=inputs)
                     res.extra = dict(note='é ✓', n=[1, 2, {'k': None}]) if names == 'fancy' else {}
                     recs += export_all(res, db.session)
+            # results carrying SEVERAL warnings (strict classification of crafted distance vectors: inconsistent matches AND a primary
+            # match that is not the closest genome), found by a seeded search over vectors of multiples of 1/16
+            import numpy as np
+            from gambit.query import get_result_item, QueryResults
+            from gambit.classify import classify
+            rngw = random.Random(ctx.seed + 77 + wi)
+            multi = []
+            for _ in range(4000):
+                dv = np.array([rngw.choice([0, 1, 2, 3, 4, 5, 6, 7, 8, 12, 16]) / 16 for _ in db.genomes], dtype=np.float32)
+                if len(classify(db.genomes, dv, strict=True).warnings) >= 2:
+                    multi.append(dv)
+                    if len(multi) == 3:
+                        break
+            if multi:
+                params = QueryParams(classify_strict=True, report_closest=3)
+                items = [get_result_item(db, params, dv, QueryInput(f'crafted {j}')) for j, dv in enumerate(multi)]
+                res = QueryResults(items=items, params=params, genomeset=db.genomeset, signaturesmeta=db.signatures.meta, extra={})
+                recs += export_all(res, db.session)
+                multi_found.append(len(multi))
             # through the command line, all three formats, files and -s with integer ids
             paths = [W.write_fasta(os.path.join(tmp, f'q{wi}', f'{q["name"]}.fasta'), q['contigs']) for q in pool]
             from gambit.kmers import KmerSpec
